@@ -29,7 +29,12 @@ for sid in "$@"; do
   [ -f "$patch" ] || patch="$sid"   # also accepts a path to a patch file
   git -C "$ISO/repo" apply "$patch" || { echo "patch does not apply"; continue; }
   fired=""
-  for id in $IDS_CHECKS; do
+  ids="$IDS_CHECKS"
+  if [ "${ISO_OWN_ONLY:-0}" = "1" ]; then
+    # only the check of the property the change is aimed at (taken from the id / file name)
+    ids="$(basename "$sid" | grep -oiE 'c[0-9]{2}' | head -1 | tr a-z A-Z)"
+  fi
+  for id in $ids; do
     out="$(VERIF_NO_EVIDENCE=1 "$ISO/verif/check" "$id" --tier "${MUT_TIER:-quick}" 2>&1)"; rc=$?
     nv=$(printf '%s\n' "$out" | grep -c '^VIOLATION')
     if [ $rc -eq 1 ]; then
